@@ -124,7 +124,9 @@ def run(ctx):
     cases = [("olivine", "olivine_A", "matrix_dislocation"), ("enstatite", "enstatite_AB", "frictional_yielding"), ("olivine", "olivine_E", "max_viscosity")]
     # ---- whole-file round trip and postfix round trips in one archive, loaded in reverse order
     for postfixes in ((None,), ("a",), ("p1", "p2", "p3"), ("7", "x_y"), ("1", "run_1", "2", "2_1"), ("run_1", "1"), ("a_b", "b", "a"),
-                      ("-1", "1"), ("12.5", "125", "1.25"), ("run-1/ol", "run1ol"), ("a b", "ab"), ("A", "a")):
+                      ("-1", "1"), ("12.5", "125", "1.25"), ("run-1/ol", "run1ol"), ("a b", "ab"), ("A", "a"),
+                      # postfixes that are falsy but not None (the empty string; integer labels from an enumeration) saved AFTER another mineral
+                      ("a", "", "b"), (1, 0, 2), ("x", 0)):
         store = Store()
         I = make_interp(ctx, store)
         fname = "/data/out.npz"
